@@ -1,6 +1,7 @@
 package checks
 
 import (
+	"bytes"
 	"fmt"
 	"math"
 	"testing"
@@ -60,6 +61,15 @@ func encodeREMB(x float32) (exp, mant uint32, err error) {
 		return 0, 0, fmt.Errorf("REMB with no SSRC marshals to %d octets", len(b))
 	}
 	v := uint32(b[17])<<16 | uint32(b[18])<<8 | uint32(b[19])
+	// the same through MarshalTo into a caller's buffer that still holds something else (a
+	// scratch buffer reused between packets): exponent and mantissa are written, not merged
+	buf := make([]byte, 24)
+	for i := range buf {
+		buf[i] = byte(0xF0 | i)
+	}
+	if n, err := p.MarshalTo(buf); err != nil || n != 20 || !bytes.Equal(buf[:20], b) {
+		return 0, 0, fmt.Errorf("REMB.MarshalTo into a used buffer = %x (n=%d, err=%v), Marshal() = %x", buf[:20], n, err, b)
+	}
 	return v >> 18, v & 0x3FFFF, nil
 }
 
